@@ -40,7 +40,7 @@ fn announce_matches_datasets(h: &Header, m: &AnnounceMessage, st: &PtpInstanceSt
 }
 
 // @harness c11_send_announce
-// @props C11 C15 C08 C12 C03 C17
+// @props C11:quick C15:quick C08:quick C12:quick C03:thorough C17:thorough
 // @tier quick
 // @variant dl128_lists2
 // @stubbing yes
@@ -205,13 +205,13 @@ fn forward_case(l0: usize, l1: usize) {
 }
 
 // @harness c15_forward_any_lengths
-// @props C15 C03 C17
+// @props C15:quick C03:thorough C17:quick
 // @tier quick
 // @variant dl128_lists2
 // @features none
 // @stubbing yes
 // @timeout 2700
-// @mem 20
+// @mem 8
 // @functions Port::send_announce, ForwardedTLV::size, Tlv::wire_size, TlvSetBuilder::build, Message::wire_size
 // @bounds master port, provider queue of two TLVs with arbitrary even value lengths 0..=62 each (every relation to the room of 64 / 52 octets: smaller, exactly fitting, larger), TLV types PATH_TRACE or ORGANIZATION_EXTENSION_PROPAGATE, each from the parent or from another sender, path trace on/off (empty received path)
 // @assume provider honours the documented contract of next_if_smaller (returns the next TLV iff its wire size <= max_size); MAX_DATA_LEN scaled to 128 (room 64); recording stubs for Message::serialize and TlvSetBuilder::add (octets: c04_encode_announce, c15_tlv_builder_readback)
